@@ -26,12 +26,33 @@ func checkSuffix(text []byte) (msg string, bad bool) {
 	if t == nil {
 		t = []byte{}
 	}
-	sa := make([]int32, n)
+	// The arrays live in one allocation with guard words between them, the
+	// way a caller with an arena lays them out; their capacity reaches into
+	// what follows them, nothing behind their length belongs to the package.
+	const gw = 2
+	arena := make([]int32, 3*n+4*gw)
+	for i := range arena {
+		arena[i] = int32(-900000 - i)
+	}
+	guardsOK := func() bool {
+		for _, base := range []int{0, gw + n, 2*gw + 2*n, 3*gw + 3*n} {
+			for i := 0; i < gw; i++ {
+				if arena[base+i] != int32(-900000-(base+i)) {
+					return false
+				}
+			}
+		}
+		return true
+	}
+	sa := arena[gw : gw+n]
 	for i := range sa {
 		// previous contents: garbage incl. negatives and duplicates
 		sa[i] = int32((i%7)*13 - 40)
 	}
 	suffix.Sort(t, sa)
+	if !guardsOK() {
+		return "Sort wrote outside of the suffix array it was given", true
+	}
 	if !bytesEqual(t, text) {
 		return "Sort modified the text", true
 	}
@@ -52,11 +73,14 @@ func checkSuffix(text []byte) (msg string, bad bool) {
 	} else {
 		want = kasaiLCP(text, sa)
 	}
-	inv := make([]int32, n)
+	inv := arena[2*gw+n : 2*gw+2*n]
 	for i := range inv {
 		inv[i] = -7
 	}
 	suffix.InvertSA(sa, inv)
+	if !guardsOK() {
+		return "InvertSA wrote outside of the array it was given", true
+	}
 	for i, p := range sa {
 		if inv[p] != int32(i) {
 			return fmt.Sprintf("InvertSA: sainv[sa[%d]=%d] = %d", i, p, inv[p]), true
@@ -70,13 +94,26 @@ func checkSuffix(text []byte) (msg string, bad bool) {
 		if combo&2 != 0 {
 			invArg = append([]int32(nil), inv...)
 		}
-		lcp := make([]int32, n)
+		lcp := arena[3*gw+2*n : 3*gw+3*n]
 		for i := range lcp {
 			lcp[i] = int32(1000 + i)
 		}
 		suffix.LCP(t, saArg, invArg, lcp)
 		if !bytesEqual(t, text) {
 			return "LCP modified the text", true
+		}
+		if !guardsOK() {
+			return "LCP wrote outside of the table it was given", true
+		}
+		for i := range saArg {
+			if saArg[i] != sa[i] {
+				return "LCP modified the suffix array it was given", true
+			}
+		}
+		for i := range invArg {
+			if invArg[i] != inv[i] {
+				return "LCP modified the inverse suffix array it was given", true
+			}
 		}
 		for i := range lcp {
 			if lcp[i] != want[i] {
